@@ -28,6 +28,103 @@ theorem shared_refines_flat (st : St) (ops : List Op) (hs : AllShared st.slots) 
 theorem size_inv (st : St) (ops : List Op) (h : SizeInv st) : SizeInv (run st ops).1 :=
   run_sizeInv ops st h
 
+/-- **Read after write (shared windows).** A successful write of `d` at `off` — whichever pieces went through
+    windows or through the file, whether or not the file had to grow — is read back exactly by a read of
+    the same range. -/
+theorem read_after_write (st st' : St) (off : Int) (d : Bytes) (sp : Nat) (hs : AllShared st.slots) (hp : 0 < st.psize)
+    (hw : write st off d = (.ok, sp, st')) : read st' off d.length = (.ok, d) := by
+  rw [write_eq_flat _ _ _ hs] at hw
+  have hs' : AllShared st'.slots := by
+    have := flatExec_allShared st (.write off d) hs trivial
+    simpa only [flatExec, hw] using this
+  rw [read_eq_flat _ _ _ hs']
+  exact flatRead_after_flatWrite st st' off d sp hp hw
+
+/-- **Other bytes keep their value.** After a successful write, any range below the old logical size that
+    does not meet the written range reads exactly as before (the most recent bytes written there). -/
+theorem read_unaffected_by_write (st st' : St) (off : Int) (d : Bytes) (sp : Nat) (hs : AllShared st.slots)
+    (hp : 0 < st.psize) (hi : Inv st) (hw : write st off d = (.ok, sp, st')) (o n : Nat) (hin : o + n ≤ st.fsize)
+    (hdis : o + n ≤ off.toNat ∨ off.toNat + d.length ≤ o) : read st' o n = read st o n := by
+  rw [write_eq_flat _ _ _ hs] at hw
+  have hs' : AllShared st'.slots := by
+    have := flatExec_allShared st (.write off d) hs trivial
+    simpa only [flatExec, hw] using this
+  rw [read_eq_flat _ _ _ hs', read_eq_flat _ _ _ hs]
+  exact flatRead_other_after_flatWrite st st' off d sp hp hi hw o n hin hdis
+
+/-- **Zero where nothing was written.** Bytes that a growing write exposes between the old size and the new
+    one, outside the written range, read as zero. -/
+theorem read_fresh_is_zero (st st' : St) (off : Int) (d : Bytes) (sp : Nat) (hs : AllShared st.slots)
+    (hp : 0 < st.psize) (hi : Inv st) (hw : write st off d = (.ok, sp, st')) (o n : Nat) (hlo : st.fsize ≤ o)
+    (hhi : o + n ≤ st'.fsize) (hb : (o : Int) + n ≤ offTMax) (hdis : o + n ≤ off.toNat ∨ off.toNat + d.length ≤ o) :
+    read st' o n = (.ok, zeros n) := by
+  rw [write_eq_flat _ _ _ hs] at hw
+  have hs' : AllShared st'.slots := by
+    have := flatExec_allShared st (.write off d) hs trivial
+    simpa only [flatExec, hw] using this
+  rw [read_eq_flat _ _ _ hs']
+  exact flatRead_fresh_after_flatWrite st st' off d sp hp hi hw o n hlo hhi hb hdis
+
+/-- **The resize policy is followed.** When `ensure_size` (also the growth step of a write) succeeds on a
+    file that is too small, the new logical size is exactly what the configured policy function proposed
+    (`policy`: default = round up; Fibonacci = round up `max (current + previous) needed`; multiplier =
+    round up `needed / d * n`), cut down to `maxoff` when that is configured and smaller; it holds the
+    requested size, and the Fibonacci context now remembers the old size. -/
+theorem ensure_follows_policy (st st' : St) (sz : Nat) (hp : 0 < st.psize) (hmo : st.maxoff % st.psize = 0)
+    (hlt : st.fsize < sz) (h : ensureSize st sz = (.ok, st')) :
+    st'.fsize = (if st.maxoff ≠ 0 ∧ (policy st.psize st.pol st.prev sz st.fsize).1 > st.maxoff then st.maxoff
+                 else (policy st.psize st.pol st.prev sz st.fsize).1) ∧
+    sz ≤ st'.fsize ∧ st'.prev = (policy st.psize st.pol st.prev sz st.fsize).2 := by
+  have hge := ensureSize_ok_ge st sz hp (by rw [h])
+  rw [h] at hge
+  refine ⟨?_, hge, ?_⟩
+  · rcases ensureSize_cases st sz with ⟨h0, _⟩ | ⟨_, e | e | ⟨T, hT, e, hTeq, hal⟩⟩
+    · omega
+    · rw [e] at h; cases h
+    · rw [e] at h; cases h
+    · have hTal : T % st.psize = 0 := by rw [hTeq]; split <;> assumption
+      rw [e] at h
+      rcases truncate_cases { st with prev := (policy st.psize st.pol st.prev sz st.fsize).2 } T with
+        ⟨e2, he⟩ | ⟨e2, _⟩ | ⟨e2, _⟩
+      · exfalso
+        have := roundUp_ge T st.psize hp
+        simp only [] at he
+        omega
+      · rw [e2] at h; cases h
+      · rw [e2] at h; simp only [Prod.mk.injEq, true_and] at h; subst h
+        simp only []
+        rw [roundUp_of_mod T st.psize hp hTal, hTeq]
+  · rcases ensureSize_cases st sz with ⟨h0, _⟩ | ⟨_, e | e | ⟨T, hT, e, _, _⟩⟩
+    · omega
+    · rw [e] at h; cases h
+    · rw [e] at h; cases h
+    · rw [e] at h
+      rcases truncate_cases { st with prev := (policy st.psize st.pol st.prev sz st.fsize).2 } T with
+        ⟨e2, _⟩ | ⟨e2, _⟩ | ⟨e2, _⟩ <;> rw [e2] at h
+      · simp only [Prod.mk.injEq, true_and] at h; subst h; rfl
+      · cases h
+      · simp only [Prod.mk.injEq, true_and] at h; subst h; rfl
+
+/-- **The size on disk is the logical size, and the next open sees it.** Along every history with shared
+    windows whose copies end inside the logical size, the file on disk is exactly `fsize` bytes long and every
+    window is mapped as far as the file reaches; closing and opening again (no initial size) then reports the
+    same size and the same bytes. The hypothesis on copies is necessary: see finding C12-COPYEXT. -/
+theorem reopen_size_partial (st : St) (ops : List Op) (pol : Policy) (maxoff : Nat) (hz : SizeInv st)
+    (hs : AllShared st.slots) (hops : ∀ op ∈ ops, op.shared) (hi : Inv st) (hc : CopiesInside st ops) :
+    Inv (run st ops).1 ∧
+    (openFile (close (run st ops).1) pol maxoff 0 false).1 = .ok ∧
+    (openFile (close (run st ops).1) pol maxoff 0 false).2.fsize = (run st ops).1.fsize ∧
+    (openFile (close (run st ops).1) pol maxoff 0 false).2.file = (run st ops).1.file := by
+  have hinv : Inv (run st ops).1 := by
+    rw [run_eq_flatRun ops st hs hops]; exact flatRun_inv ops st hz.1 hs hops hi hc
+  have hsz := run_sizeInv ops st hz
+  generalize (run st ops).1 = s at hinv hsz
+  refine ⟨hinv, ?_⟩
+  unfold openFile close
+  simp only [Bool.false_eq_true, if_false, Nat.not_lt_zero]
+  rw [hinv.1]
+  simp [hsz.2.1]
+
 /-- non-vacuity: a freshly opened file satisfies the size invariant and has only shared windows -/
 example : SizeInv ({ psize := 4096, cbuf := 4096 } : St) ∧ AllShared ({ psize := 4096, cbuf := 4096 } : St).slots :=
   ⟨⟨by decide, by decide, by simp⟩, by simp [AllShared]⟩
